@@ -118,7 +118,7 @@ def make_sleep(clock: Clock, on_suspend=None):
       otherwise suspends, and either  (timed out)  returns None with clock' >= clock + m,
                                  or   (woken, only if wakeup is not None)  returns r = max(0, m - (clock'-clock)),
                                       0 <= r <= m, with the wakeup event set.
-    Every call is recorded on the ghost trace as ('sleep', m, wakeup, result).
+    Every call is recorded on the ghost trace as ('sleep', m, wakeup, result, kind, clock-at-call).
     """
     from .loader import suspend
 
@@ -136,10 +136,10 @@ def make_sleep(clock: Clock, on_suspend=None):
         else:
             m = 0 if delays is None else delays
         if m <= 0:
-            eng.emit('sleep', m, wakeup, None, 'nosleep')
+            eng.emit('sleep', m, wakeup, None, 'nosleep', clock.now)
             return None
         if wakeup is not None and wakeup.is_set():
-            eng.emit('sleep', m, wakeup, m, 'already-set')
+            eng.emit('sleep', m, wakeup, m, 'already-set', clock.now)
             return m
         t0 = clock.now
         await suspend('aiotime.sleep')
@@ -151,10 +151,10 @@ def make_sleep(clock: Clock, on_suspend=None):
             wakeup.state = True
             passed = clock.now - t0
             r = V.If(m - passed > 0, m - passed, 0)
-            eng.emit('sleep', m, wakeup, r, 'woken')
+            eng.emit('sleep', m, wakeup, r, 'woken', t0)
             return r
         clock.advance(m)
-        eng.emit('sleep', m, wakeup, None, 'timeout')
+        eng.emit('sleep', m, wakeup, None, 'timeout', t0)
         return None
     return sleep
 
